@@ -95,3 +95,37 @@ Example C07_example :
   let f := [Node 0 [(3, 1)] [Node 1 [(0, 9)] []; Node 2 [(5, 2)] [Node 3 [(4, 8)] []; Node 4 [(6, 7)] []]]] in
   sview (prune_struct [MinDelta 0; MinNpix 2 1] f) = [(0, (-1, ([], [3; 0; 5; 4; 6])))].
 Proof. vm_compute. reflexivity. Qed.
+
+(* ------------------------------------------------------------------------------------------
+   "its parent is its nearest surviving former ancestor".  anc_table lists, for every
+   structure, the identifiers of its ancestors from the parent up to the trunk structure
+   (its first components are the parent table used elsewhere: C07_chain_table_is_parent_table).
+   After prune the chain of every surviving structure is its former chain with exactly the
+   removed structures left out, in the same order - for every forest with distinct
+   identifiers, every criteria list. *)
+From Dendro Require Import PruneAnc.
+
+Theorem C07_ancestor_chains :
+  forall cs f, NoDup (fids f) ->
+    incl (fids (prune_struct cs f)) (fids f) /\ NoDup (fids (prune_struct cs f)) /\
+    forall j l', In (j, l') (anc_table (prune_struct cs f)) ->
+      exists l, In (j, l) (anc_table f) /\ l' = survives (fids (prune_struct cs f)) l.
+Proof. exact prune_struct_ancestors. Qed.
+Print Assumptions C07_ancestor_chains.
+
+Theorem C07_parent_is_nearest_surviving_former_ancestor :
+  forall cs f j p rest, NoDup (fids f) -> In (j, p :: rest) (anc_table (prune_struct cs f)) ->
+    exists pre post, In (j, pre ++ p :: post) (anc_table f) /\
+                     (forall y, In y pre -> ~ In y (fids (prune_struct cs f))) /\ In p (fids (prune_struct cs f)).
+Proof. exact parent_is_nearest_surviving_ancestor. Qed.
+Print Assumptions C07_parent_is_nearest_surviving_former_ancestor.
+
+Theorem C07_parentless_iff_no_former_ancestor_survives :
+  forall cs f j, NoDup (fids f) -> In (j, []) (anc_table (prune_struct cs f)) ->
+    exists l, In (j, l) (anc_table f) /\ forall y, In y l -> ~ In y (fids (prune_struct cs f)).
+Proof. exact parentless_iff_no_ancestor_survives. Qed.
+
+Theorem C07_chain_table_is_parent_table :
+  forall f, map (fun e : Z * list Z => (fst e, hd (-1) (snd e))) (anc_table f) = parent_table f.
+Proof. exact anc_table_parents. Qed.
+Print Assumptions C07_chain_table_is_parent_table.
